@@ -1,3 +1,4 @@
+import PcfgVerif.Generated.ProcessState
 import PcfgVerif.Generated.Session
 import PcfgVerif.Properties.LoaderCore
 import PcfgVerif.Properties.SkipBruteOrder
@@ -99,6 +100,14 @@ theorem C14_saved_flags_round_trip :
       [("skip_brute", "save_config.getboolean('rule_info','skip_brute')"),
        ("skip_case", "save_config.getboolean('rule_info','skip_case')")] ∧
     Generated.Session.loadSaveBeforeGrammar = true := by
+  decide
+
+/-- **nothing outlives a call except the objects a caller holds** (regenerated from the four library packages): no module-level or
+class-level mutable container, no cache decorator or cache call (`functools.lru_cache`, `cache`), no mutable or computed default
+argument and no `global` statement anywhere in `lib_guesser`, `lib_trainer`, `lib_scorer`, `lib_princeling`.  The models of this file are
+functions of the objects handed to the code (grammar, detector, tables, memo table); this is the fact that lets them be: an answer cannot
+depend on what another object, an earlier ruleset in the same process or the other thread did -/
+theorem C14_no_process_wide_state : Generated.ProcessState.processWideState = [] := by
   decide
 
 end Pcfg.C14
